@@ -4,6 +4,9 @@ From RecordUpdate Require Import RecordUpdate.
 From LE Require Import Base Ev Consts World Mon Proto GenGuards SimBasics.
 Open Scope Z_scope.
 
+Lemma guards_split b te : guards b te = [] -> guards0 b te = [] /\ overdue_ticks b (fst te) = [].
+Proof. unfold guards. apply app_nil_l2. Qed.
+
 Lemma mwhen_in c a x : In x (Mon.when c a) -> c = true /\ x = a.
 Proof. destruct c; cbn; [intros [H|[]]; auto|intros []]. Qed.
 
@@ -19,7 +22,7 @@ Ltac split_nil H :=
 (* ---------------------------------------------------------------- what the rules say at a linearisation point *)
 Lemma guards_apply b t op okind rev val p :
   aget (b_pend b) op = Some p ->
-  guards b (t, EApply op okind rev val) = [] ->
+  guards0 b (t, EApply op okind rev val) = [] ->
   p_kind p =? kWatch = false ->
   p_applied p = None /\
   fst (store_outcome b (p_kind p) (p_key p) (p_exp p)) = okind /\
@@ -38,7 +41,7 @@ Qed.
 (* C01 clause "creation while no live record exists" and "against that exact revision":
    the store contract at the linearisation point *)
 Lemma C01_store_contract_apply b t op okind rev val :
-  guards b (t, EApply op okind rev val) = [] ->
+  guards0 b (t, EApply op okind rev val) = [] ->
   ~ In 102 (mon_C01 b (t, EApply op okind rev val)) /\ ~ In 104 (mon_C01 b (t, EApply op okind rev val)).
 Proof.
   intros G. cbn [mon_C01 snd].
@@ -80,7 +83,7 @@ Proof.
 Qed.
 
 Lemma C01_store_contract b te :
-  guards b te = [] -> ~ In 102 (mon_C01 b te) /\ ~ In 104 (mon_C01 b te).
+  guards0 b te = [] -> ~ In 102 (mon_C01 b te) /\ ~ In 104 (mon_C01 b te).
 Proof.
   intros G. destruct te as [t e].
   destruct e; try (apply C01_store_contract_apply; exact G);
@@ -88,7 +91,7 @@ Proof.
 Qed.
 
 (* C01 clause "elections for different groups never touch each other's records" *)
-Lemma C01_group_isolation b te : guards b te = [] -> ~ In 101 (mon_C01 b te).
+Lemma C01_group_isolation b te : guards0 b te = [] -> ~ In 101 (mon_C01 b te).
 Proof.
   intros G. destruct te as [t e].
   destruct e; cbn [mon_C01 snd]; try (intros []).
@@ -114,7 +117,7 @@ Qed.
 (* C13 clause "never claims leadership without a successful write of its own" and
    C09 clause "a stopped election never claims leadership again" at the claim itself *)
 Lemma claim_needs_own_write_flag b t i fl cause root gid :
-  guards b (t, EFlag i fl cause root gid) = [] -> ~ In 1302 (mon_C13 b (t, EFlag i fl cause root gid)).
+  guards0 b (t, EFlag i fl cause root gid) = [] -> ~ In 1302 (mon_C13 b (t, EFlag i fl cause root gid)).
 Proof.
   intros G. cbn [mon_C13 snd].
   destruct (zb fl) eqn:Ef; [|intros []].
@@ -122,6 +125,7 @@ Proof.
   apply app_nil_l2 in G. destruct G as [_ G]. apply app_nil_l2 in G. destruct G as [_ G].
   apply app_nil_l2 in G. destruct G as [_ G].
   destruct (aget (b_rets b) gid) as [r|]; [|discriminate].
+  apply app_nil_l2 in G. destruct G as [G _].
   apply pwhen_nil in G. apply Bool.negb_false_iff in G.
   apply andb_prop in G. destruct G as [G _]. apply andb_prop in G. destruct G as [G1 G2].
   intros H. apply in_app_or in H. destruct H as [H|H].
@@ -130,7 +134,7 @@ Proof.
     apply mwhen_in in H. destruct H; discriminate.
 Qed.
 
-Lemma claim_needs_own_write b te : guards b te = [] -> ~ In 1302 (mon_C13 b te).
+Lemma claim_needs_own_write b te : guards0 b te = [] -> ~ In 1302 (mon_C13 b te).
 Proof.
   intros G. destruct te as [t e].
   destruct e; try (apply claim_needs_own_write_flag; exact G); cbn [mon_C13 snd]; cbn; intuition discriminate.
@@ -213,6 +217,23 @@ Proof.
   rewrite E. destruct (i =? j); [exact Hf|].
   unfold inst_of. cbn. apply (inv_stopped _ I).
 Qed.
+
+(* an instance update that leaves "stopped" and the state alone *)
+Lemma Inv_upd' b i f :
+  Inv b -> (forall x, io_stopped (f x) = io_stopped x /\ io_state (f x) = io_state x) -> Inv (upd_inst b i f).
+Proof.
+  intros I Hf. apply (Inv_frame b); [unfold same_store, upd_inst, set_inst; cbn; intuition| |exact I].
+  intros j. rewrite inst_of_upd. destruct (i =? j).
+  - destruct (Hf (inst_of b i)) as [A B]. rewrite A, B. apply (inv_stopped _ I).
+  - apply (inv_stopped _ I).
+Qed.
+
+Ltac inv_inst I1 :=
+  cbv zeta;
+  repeat match goal with
+         | |- Inv (if ?c then _ else _) => destruct c
+         | |- Inv (upd_inst _ _ _) => apply Inv_upd'; [|intros; split; reflexivity]
+         end; try exact I1.
 
 (* ---------------------------------------------------------------- publishing a new version *)
 Lemma in_hist_mono b k r v tomb ver b' :
@@ -304,7 +325,7 @@ Qed.
 
 (* a call is issued *)
 Lemma Inv_issue b t i op kind inner root gid key val exp :
-  Inv b -> guards b (t, EIssue i op kind inner root gid key val exp) = [] ->
+  Inv b -> guards0 b (t, EIssue i op kind inner root gid key val exp) = [] ->
   Inv (bapply b (t, EIssue i op kind inner root gid key val exp)).
 Proof.
   intros I0 G. pose proof (Inv_now b t I0) as I. clear I0.
@@ -322,7 +343,8 @@ Proof.
   assert (Hs : b_seq b' = b_seq b0) by reflexivity.
   assert (Hr : b_rets b' = b_rets b0) by reflexivity.
   assert (Hi : b_inst b' = b_inst b0) by reflexivity.
-  destruct I as [I1 I2 I3 I4 I5 I6 I7 I8 I9].
+  assert (IB : Inv b').
+  { destruct I as [I1 I2 I3 I4 I5 I6 I7 I8 I9].
   constructor; unfold in_hist, sok_of, sid_of, tok_of, prio_of, vinfo_of, cfg_of, last_of, inst_of in *;
     rewrite ?Hv, ?Hc, ?Hh, ?Hl, ?Hs, ?Hr, ?Hi; auto.
   - (* create payloads *)
@@ -345,7 +367,11 @@ Proof.
     specialize (I6 gid r Er Rk Rrk). rewrite Rrev, Rkey in I6. rewrite Gk. exact I6.
   - (* applied reads *)
     intros op' p' r v t'. rewrite Hp. destruct (op =? op') eqn:E; [|apply I7].
-    intros Hsome _ Ha. inversion Hsome. subst p'. cbn in Ha. discriminate.
+    intros Hsome _ Ha. inversion Hsome. subst p'. cbn in Ha. discriminate. }
+  (* a refresh attempt also starts the instance's attempt clock: only instance fields change *)
+  match goal with |- Inv (if ?c then _ else _) => destruct c end; [|exact IB].
+  apply (Inv_frame b'); [unfold same_store, upd_inst, set_inst; cbn; intuition| |exact IB].
+  intros j. rewrite inst_of_upd. destruct (i =? j); [cbn|]; apply (inv_stopped _ IB).
 Qed.
 
 (* marking a call as applied (no new version) *)
@@ -387,7 +413,7 @@ Proof.
 Qed.
 
 Lemma Inv_apply b t op okind rev val :
-  Inv b -> guards b (t, EApply op okind rev val) = [] -> Inv (bapply b (t, EApply op okind rev val)).
+  Inv b -> guards0 b (t, EApply op okind rev val) = [] -> Inv (bapply b (t, EApply op okind rev val)).
 Proof.
   intros I0 G. pose proof (Inv_now b t I0) as I.
   cbn [bapply]. set (b0 := b <| b_now := t |>) in *.
@@ -429,7 +455,7 @@ Qed.
 
 (* a call returns *)
 Lemma Inv_ret b t i op rk rev val :
-  Inv b -> guards b (t, ERet i op rk rev val) = [] -> Inv (bapply b (t, ERet i op rk rev val)).
+  Inv b -> guards0 b (t, ERet i op rk rev val) = [] -> Inv (bapply b (t, ERet i op rk rev val)).
 Proof.
   intros I0 G. pose proof (Inv_now b t I0) as I.
   cbn [bapply]. set (b0 := b <| b_now := t |>) in *.
@@ -464,16 +490,11 @@ Proof.
     apply Z.eqb_eq in G2. subst r.
     unfold v. rewrite Hk in G3 |- *. change (kGet =? kGet) with true in G3 |- *. cbn [negb orb] in G3. apply Z.eqb_eq in G3. subst v'.
     exact (J7 op p rev val t' Hop Hk Ea). }
-  destruct ((p_kind p =? kUpdate) && (p_inner p =? sHeartbeat) && (rk =? oOk) && io_flag (inst_of b1 i)
-            && (v_stok (vinfo_of b1 (p_val p)) =? io_tok (inst_of b1 i))
-            && (t - p_t p <? hb_update_timeout (ic_H (cfg_of b1 i))))%bool; [|exact I1].
-  (* only the instance's views change *)
-  apply (Inv_frame b1); [unfold same_store, upd_inst, set_inst; cbn; intuition| |exact I1].
-  intros j. rewrite inst_of_upd. destruct (i =? j); [cbn|]; apply (inv_stopped _ I1).
+  fold v. fold lr. fold b1. inv_inst I1.
 Qed.
 
 Lemma Inv_valdef b t v len sok sid stok sprio mok hasid mid hastok mtok :
-  Inv b -> guards b (t, EValDef v len sok sid stok sprio mok hasid mid hastok mtok) = [] ->
+  Inv b -> guards0 b (t, EValDef v len sok sid stok sprio mok hasid mid hastok mtok) = [] ->
   Inv (bapply b (t, EValDef v len sok sid stok sprio mok hasid mid hastok mtok)).
 Proof.
   intros I G.
@@ -497,7 +518,7 @@ Proof.
 Qed.
 
 Lemma Inv_instdef b t i key H TTL vi gr mh pr tk mo hh hd bt hp :
-  Inv b -> guards b (t, EInstDef i key H TTL vi gr mh pr tk mo hh hd bt hp) = [] ->
+  Inv b -> guards0 b (t, EInstDef i key H TTL vi gr mh pr tk mo hh hd bt hp) = [] ->
   Inv (bapply b (t, EInstDef i key H TTL vi gr mh pr tk mo hh hd bt hp)).
 Proof.
   intros I G.
@@ -539,7 +560,7 @@ Proof.
   - rewrite aget_adel_other by exact E. apply J3.
 Qed.
 
-Lemma Inv_step b te : Inv b -> guards b te = [] -> Inv (bapply b te).
+Lemma Inv_step b te : Inv b -> guards0 b te = [] -> Inv (bapply b te).
 Proof.
   intros I G. destruct te as [t e].
   destruct e;
@@ -593,7 +614,7 @@ Qed.
 (* C01: a created record names its creator; a takeover replaces only a live version of strictly lower
    priority, with takeover enabled. C10: the same for "another instance's record". *)
 Lemma C01_identity_takeover_apply b t op okind rev val :
-  Inv b -> guards b (t, EApply op okind rev val) = [] ->
+  Inv b -> guards0 b (t, EApply op okind rev val) = [] ->
   ~ In 103 (mon_C01 b (t, EApply op okind rev val)) /\ ~ In 106 (mon_C01 b (t, EApply op okind rev val)) /\
   (In 1001 (mon_C10s b (t, EApply op okind rev val)) -> exists p, aget (b_pend b) op = Some p /\ p_inner p <> sTakeover).
 Proof.
@@ -652,7 +673,7 @@ Qed.
 
 (* C09: a stopped election never raises the claim again *)
 Lemma C09_final_flag b m t i fl cause root gid :
-  Inv b -> guards b (t, EFlag i fl cause root gid) = [] -> ~ In 901 (mon_C09 b m (t, EFlag i fl cause root gid)).
+  Inv b -> guards0 b (t, EFlag i fl cause root gid) = [] -> ~ In 901 (mon_C09 b m (t, EFlag i fl cause root gid)).
 Proof.
   intros I G. cbn [mon_C09 snd]. intros H. apply mwhen_in in H. destruct H as [H _].
   apply andb_prop in H. destruct H as [Hf Hs].
@@ -676,5 +697,5 @@ Proof.
   - cbn in A. destruct (guards b x) eqn:G; [|discriminate].
     destruct pre as [|y pre]; cbn in E.
     + inversion E. subst x post. cbn. auto.
-    + inversion E. subst y. cbn [fold_left]. eapply IH; eauto. apply Inv_step; assumption.
+    + inversion E. subst y. cbn [fold_left]. eapply IH; eauto. apply Inv_step; [assumption|apply guards_split in G; tauto].
 Qed.
